@@ -858,6 +858,7 @@ func (f *Frame) loopHeader(li *loopInfo, preds []*ssa.BasicBlock) {
 			f.enc.addFact(nv.S, fmt.Sprintf("(assert (forall ((r!f Int)) (! (=> (<= r!f %s) (= (select %s r!f) (select %s r!f))) :pattern ((select %s r!f)))))", allocEntry.S, nv.S, old.S, nv.S))
 		}
 	}
+	f.stableAcross(li.mods, nil, pre, allocEntry)
 	f.preserveLocalCells(li, pre)
 	if _, ok := li.mods["held"]; ok {
 		if hv, ok := f.st["held"]; ok {
